@@ -1544,7 +1544,7 @@ class Compiler:
             yield EmitText(node.prefix + node.name + node.suffix)
 
     def visit_End(self, node):
-        yield EmitText(node.prefix + node.name + node.space + node.suffix)
+        yield EmitText(node.prefix + node.name + node.suffix)
 
     def visit_Attribute(self, node):
         attr_format = (node.space + node.name + node.eq +
